@@ -143,11 +143,11 @@ def plan(tier, seed, jobs):
             specs.append({"kind": "holds", "n": 40, "seed": seed, "j": j, "budget_s": 50})
     else:
         for j in range(jobs * 3):
-            specs.append({"kind": "stress", "n": 1500, "seed": seed, "j": j, "budget_s": 600})
+            specs.append({"kind": "stress", "n": 1500, "seed": seed, "j": j, "budget_s": 120})
         for j in range(jobs * 2):
-            specs.append({"kind": "noise", "n": 800, "seed": seed, "j": j, "budget_s": 600})
+            specs.append({"kind": "noise", "n": 800, "seed": seed, "j": j, "budget_s": 120})
         for j in range(jobs * 3):
-            specs.append({"kind": "holds", "n": 600, "seed": seed, "j": j, "budget_s": 700})
+            specs.append({"kind": "holds", "n": 600, "seed": seed, "j": j, "budget_s": 150})
     return specs
 
 
